@@ -25,6 +25,7 @@ ID = "C02"
 RUNS = {"quick": 1200, "thorough": 30000}
 BUDGET = {"quick": 75, "thorough": 1500}
 CHUNK = {"quick": 10, "thorough": 40}
+RUN_TIMEOUT_S = 600
 RULE = (
     "target = seeded labelled simple graph on n = 1..7 vertices (Erdos-Renyi at several densities, path, star, cycle, "
     "complete, random tree, repeater graph, disjoint unions, with isolated vertices in a minority of runs), randomly "
@@ -56,6 +57,10 @@ def gen_case(run_seed, tier):
         g, fam = graphs.random_graph(sz, 2, nmax, allow_isolated=False, fams=["er", "er", "path", "star", "cycle", "complete", "tree", "rgs", "union", "union", "union"])
     rep = sz.choice(["g", "g", "s", "dm"])
     backend = sz.choice(["stab", "stab", "dm"])
+    if g[0] > 5 and backend == "dm":
+        backend = "stab"  # n photons + up to ~n/2 emitters: density matrices beyond 8 qubits take minutes per compile
+    if g[0] > 6 and rep == "dm":
+        rep = "s"
     det = sz.choice([0, 1, 2])
     return {"n": g[0], "edges": [list(e) for e in g[1]], "family": fam, "rep": rep, "backend": backend, "det": det, "oseed": sz.randrange(10**9)}
 
